@@ -130,22 +130,20 @@ theorem cut_in_sequence (topic : Bytes) (pre : List C11.Exch) (e : C11.Exch) (po
   · rw [runOps_append]
     simp only [C11.runOps, C11.runOps_closed topic post _ hcut.2, hcut.2]
 
-/-- fetch on a cut stream: never a complete batch; a kafka error can only come with a used-up stream -/
+/-- fetch on a cut stream, for every conserving message-set reader and however far the caller read the batch before
+Close: a non-kafka error, and the Conn is closed — the same statement as `cut_is_error` (since the fix C02-D33; before
+it a kafka error out of ReadMessage, or an early Close, could end "successfully" on a Conn left in mid-response) -/
 theorem fetch_cut_is_error (v : Nat) (offset : Int) (b : Body) (c : Conn) (hdr tail : Bytes) (n : Nat)
     (hb : b.Conserves) (hopen : c.closed = false)
     (hstream : c.stream = hdr ++ tail) (hlen : hdr.length = 8)
     (hsize : beInt (hdr.take 4) = n + 4) (hid : beInt (hdr.drop 4) = c.nextId)
     (hcut : tail.length < n) :
-    (connFetch true v offset b c).1 ≠ .ok ∧
-    ((connFetch true v offset b c).1.isFail = true → (connFetch true v offset b c).2.closed = true) ∧
-    ((connFetch true v offset b c).1.isFail = false → (connFetch true v offset b c).2.stream = []) := by
+    (connFetch true v offset b c).1.isFail = true ∧ (connFetch true v offset b c).2.closed = true := by
   have hw := C11.wait_hdr c hdr tail n hstream hlen hsize hid
   have hf := fetchRead_cut v offset b ⟨tail, n⟩ hb hcut
   unfold connFetch
   simp only [hopen, Bool.false_eq_true, ↓reduceIte, hw]
-  refine ⟨hf.1, ?_, hf.2⟩
-  intro h
-  simp [h]
+  exact ⟨hf, hf⟩
 
 /-! ### the reflective decoder (Transport path) under its contract -/
 
@@ -188,6 +186,26 @@ theorem produce_frame_every_cut :
         let r := connDo o 2 [116] ⟨(C11.d2Frame 1).take k, 1, false⟩
         r.1.isFail && r.2.closed
       | none => false) = true := by decide
+
+/-- the un-framed sasl token exchange on a complete answer — 4 bytes of length, the token, then anything: ok, and the
+stream is exactly at what follows the token (the C11 side of this exchange: the framed operations that follow the
+authentication start at a frame boundary) -/
+theorem raw_token_aligned (len tok rest : Bytes) (hl : len.length = 4) (hv : beInt len = tok.length) :
+    rawToken (len ++ (tok ++ rest)) = (.ok, rest) := by
+  unfold rawToken
+  rw [C11.readInt_app len _ 4 4 hl (by omega)]
+  simp only [hv]
+  have hneg : ¬ ((tok.length : Int) < 0) := by omega
+  simp only [hneg, ↓reduceIte, Int.toNat_natCast]
+  unfold readNewBytes
+  by_cases h0 : tok.length = 0
+  · have : tok = [] := List.eq_nil_of_length_eq_zero h0
+    subst this
+    simp
+  · have hpos : ¬ ((tok.length : Int) ≤ 0) := by omega
+    simp only [hpos, ↓reduceIte, Int.toNat_natCast, Nat.min_self, List.length_append]
+    have h1 : ¬ (tok.length + rest.length < tok.length) := by omega
+    simp only [h1, ↓reduceIte, Nat.lt_irrefl, List.drop_left]
 
 /-- the un-framed sasl token exchange: an answer announcing n bytes of which fewer arrive (or whose 4-byte length is
 itself cut) is an error, at every cut position -/
@@ -546,14 +564,14 @@ section StructuralDecoder
 open KV.Codec KV.CodecAcct
 
 /-- ReadResponse after the size prefix, as a `Decoder` -/
-def codecDecoder (cfg : Cfg) (flex : Bool) (t : Ty) : Decoder (Int × Val) where
+def codecDecoder (cfg : Cfg) (hrecs : RecsAcct cfg) (flex : Bool) (t : Ty) : Decoder (Int × Val) where
   run := fun s =>
     match respTail cfg flex t ⟨s.inp, s.sz⟩ with
     | .ok r d => (some r, ⟨d.inp, d.remain⟩)
     | _ => (none, s)
   conserves := by
     intro s
-    have h := respTail_acctz cfg flex t ⟨s.inp, s.sz⟩
+    have h := respTail_acctz cfg hrecs flex t ⟨s.inp, s.sz⟩
     cases hr : respTail cfg flex t ⟨s.inp, s.sz⟩ with
     | ok r d =>
       rw [hr] at h
@@ -564,24 +582,28 @@ def codecDecoder (cfg : Cfg) (flex : Bool) (t : Ty) : Decoder (Int × Val) where
     | balloon => exact Reader.Adv.refl s
   ok_after_discardAll := by
     intro s a h
-    have hz := respTail_acctz cfg flex t ⟨s.inp, s.sz⟩
+    have hz := respTail_acctz cfg hrecs flex t ⟨s.inp, s.sz⟩
     cases hr : respTail cfg flex t ⟨s.inp, s.sz⟩ with
     | ok r d => rw [hr] at hz; simp only [hr]; exact hz.2
     | error => simp [hr] at h
     | panic => simp [hr] at h
     | balloon => simp [hr] at h
 
+/-- the decoder configuration regenerated from the current source tree uses the built-in record-set reader (no
+`Cfg.recs` hook), so the accounting premise holds for it -/
+theorem decoderCfg_recsAcct : RecsAcct Gen.decoderCfg := recsAcct_none _ rfl
+
 /-- every response schema, the decoder configuration of the current source tree, every cut position: no message -/
 theorem readResponse_cut_is_error_structural (flex : Bool) (t : Ty) (frame : Bytes)
     (hframe : frame.length = 4 + (announced frame).toNat) (hpos : 0 ≤ announced frame) (k : Nat) (hk : k < frame.length)
     (r : Int × Val) (d : Dec) : readResponse Gen.decoderCfg flex t (frame.take k) ≠ .ok r d :=
-  readResponse_cut_structural Gen.decoderCfg flex t frame hframe hpos k hk r d
+  readResponse_cut_structural Gen.decoderCfg decoderCfg_recsAcct flex t frame hframe hpos k hk r d
 
 /-- and a decoded message means the whole announced frame, and nothing else, was consumed (Transport-side alignment) -/
 theorem readResponse_ok_aligned (flex : Bool) (t : Ty) (stream : Bytes) (r : Int × Val) (d : Dec)
     (h : readResponse Gen.decoderCfg flex t stream = .ok r d) :
     4 + (announced stream).toNat ≤ stream.length ∧ d.inp = stream.drop (4 + (announced stream).toNat) := by
-  have := readResponse_ok_consumes_frame Gen.decoderCfg flex t stream r d h
+  have := readResponse_ok_consumes_frame Gen.decoderCfg decoderCfg_recsAcct flex t stream r d h
   exact ⟨this.2.2.1, this.2.2.2.1⟩
 
 end StructuralDecoder
